@@ -324,6 +324,72 @@ def check_map_satisfiers(chk, F):
     chk.floor(R, "look-up cases", n, 40)
 
 
+# ---- R02.10 lock times as satisfiers ---------------------------------------------------------------------------------------------
+
+def check_lock_satisfiers(chk, F):
+    from . import c14
+    from ..interp import Panic
+    rid = "R02.10"
+    chk.rule(rid, "the lock-time types used as satisfiers (Sequence, RelLockTime, relative::LockTime for check_older; "
+                  "absolute::LockTime for check_after) answer true exactly when the value the *caller holds* (the input's "
+                  "nSequence / the transaction's nLockTime) implies the lock the *script asks for*: same unit and at least as "
+                  "large (BIP-68 / BIP-65), in particular for every value strictly above the requested one; a sequence with "
+                  "the disable flag offers no relative lock (grid of held x requested values in both units)")
+    TR = "miniscript::satisfy::Satisfier<Pk>"
+    ty = {"Sequence": "bitcoin::Sequence", "RelLockTime": "primitives::relative_locktime::RelLockTime",
+          "relative::LockTime": "bitcoin::relative::LockTime", "absolute::LockTime": "bitcoin::absolute::LockTime"}
+    paths = {}
+    for nm, t in ty.items():
+        meth = "check_after" if nm == "absolute::LockTime" else "check_older"
+        p = "<%s as %s>::%s" % (t, TR, meth)
+        if p not in F.bodies:
+            chk.fail(rid, "anchor|" + nm, "%s not found" % p, kind="unanalysable")
+            return
+        paths[nm] = p
+    chk.saw(*paths.values())
+    m = Machine(F, strict=True)
+    c14.lock_hooks(m)
+    rl = [a for a in F.adts if a.endswith("relative_locktime::RelLockTime")][0]
+    TYPE, DIS = 1 << 22, 1 << 31
+    n_cases = 0
+    try:
+        for nm in ("Sequence", "RelLockTime", "relative::LockTime"):
+            bad = []
+            for req in (5, 144, 5 | TYPE, 65535):
+                helds = sorted({max((req & 0xffff) + d, 1) | (req & TYPE) for d in (-1, 0, 1, 100)} | {(req & 0xffff) | ((req & TYPE) ^ TYPE), 0xffff | (req & TYPE)})
+                if nm == "Sequence":
+                    helds += [req | DIS, 0xffffffff, 0xfffffffe]
+                for held in helds:
+                    if nm == "Sequence":
+                        recv = held
+                    elif nm == "RelLockTime":
+                        recv = Adt(rl, "RelLockTime", {"0": held})
+                    else:
+                        recv = ("rel", held)
+                    got = m.call_callee({"def": paths[nm], "resolved": paths[nm], "name": "check_older", "targs": ["PK"]}, [recv, ("rel", req)])
+                    want = (held & DIS) == 0 and (held & TYPE) == (req & TYPE) and (req & 0xffff) <= (held & 0xffff)
+                    n_cases += 1
+                    if got is not want:
+                        bad.append("holding %#x, asked for older(%#x): %r, BIP-68 says %r" % (held, req, got, want))
+            chk.obligation(rid, not bad, nm, "%d case(s); first: %s" % (len(bad), bad[0] if bad else ""), where="src/miniscript/satisfy/mod.rs",
+                           detail=bad[:8])
+        bad = []
+        for req in (100, 500000100, 1, 499999999, 500000000):
+            for held in sorted({max(req + d, 0) for d in (-1, 0, 1, 1000)} | {0, 499999999, 500000000, 0xffffffff, (req + 500000000) if req < 500000000 else req - 500000000}):
+                got = m.call_callee({"def": paths["absolute::LockTime"], "resolved": paths["absolute::LockTime"], "name": "check_after", "targs": ["PK"]}, [held, req])
+                want = (req < 500000000) == (held < 500000000) and req <= held
+                n_cases += 1
+                if got is not want:
+                    bad.append("holding %d, asked for after(%d): %r, BIP-65 says %r" % (held, req, got, want))
+        chk.obligation(rid, not bad, "absolute::LockTime", "%d case(s); first: %s" % (len(bad), bad[0] if bad else ""),
+                       where="src/miniscript/satisfy/mod.rs", detail=bad[:8])
+    except Unsupported as e:
+        chk.fail(rid, "unanalysable", "unanalysable: %s" % e, where=e.where, kind="unanalysable")
+    except Panic as e:
+        chk.fail(rid, "panic", "panic: %s" % e, where="src/miniscript/satisfy/mod.rs")
+    chk.floor(rid, "grid points", n_cases, 100)
+
+
 def run(chk):
     F = chk.facts()
     chk.explanation = (
@@ -359,3 +425,4 @@ def run(chk):
               RuleAlias(chk, {"R17.6": "R02.8"}, "Assets key matching: a key source signs for exactly its own path and its direct "
                                                  "children (exhaustive table on short paths; rule shared with C17)"), F)
     chk.guard("R02.9", "map-satisfiers", check_map_satisfiers, chk, F)
+    chk.guard("R02.10", "lock-satisfiers", check_lock_satisfiers, chk, F)
